@@ -643,6 +643,9 @@ use simple_mermaid::mermaid;
 
 #[doc(hidden)]
 pub mod __private;
+#[cfg(folo_verif)]
+#[doc(hidden)]
+pub mod __verif;
 
 mod r#box;
 mod constants;
